@@ -225,6 +225,18 @@ func ruleP15Total(p *Prog, r *Report) {
 							// method fails for the same dates, however many call sites spell it
 							k, isK := constInt(args[0])
 							key := fmt.Sprintf("%s.%s:PlusDays(n)", kind, mname)
+							// the closed form of a walk to a weekday: K − Weekday() days, i.e. back to
+							// Monday (K = 1, 0…6 days back) or on to Sunday (K = 7, 0…6 days on) — it
+							// fails for the same dates as the day-by-day walk in that direction
+							if target, isW := weekdayStep(args[0], recv); isW && !isK {
+								dirKey, dir, edge := "fwd", "forward", "9999-12-31"
+								if target == 1 {
+									dirKey, dir, edge = "back", "backward", "0000-01-01"
+								}
+								key = fmt.Sprintf("%s.%s:PlusDays(%s)", kind, mname, dirKey)
+								r.bad(rule, key, p.instrPos(x), "%s.%s steps %s (PlusDays(%d - Weekday())) from a date that may lie at the end of the representable range (%s): PlusDays panics there", kind, mname, dir, target, edge)
+								return
+							}
 							switch {
 							case isK && k < 0:
 								key = fmt.Sprintf("%s.%s:PlusDays(back)", kind, mname)
@@ -498,6 +510,13 @@ func ruleP15Steps(p *Prog, r *Report) {
 			key := fmt.Sprintf("%s.%s:step#%d", l.kind, l.method, ord)
 			k, isK := constInt(args[0])
 			if !isK {
+				// K − Weekday() of the date stepped from: straight to weekday K of the same week
+				_, recv0, _, _ := methodCallOf(c)
+				if target, isW := weekdayStep(args[0], recv0); isW && l.kind == "Week" && l.method == "Period" && (target == 1 || target == 7) {
+					r.ok(rule, key, p.instrPos(c), "%d - Weekday() days: straight to weekday %d of the same Monday-to-Sunday week", target, target)
+					derivedWeekEnds = append(derivedWeekEnds, target)
+					return
+				}
 				r.undecided(rule, key, p.instrPos(c), "non-constant day step")
 				return
 			}
@@ -605,7 +624,7 @@ func ruleP15Bounds(p *Prog, r *Report) {
 		last := map[int64]int64{1: 31, 2: 30, 3: 30, 4: 31}
 		seen := map[int64]bool{}
 		for _, ret := range returnsOf(qf) {
-			c, ok := isCallTo(retResult(ret, 0), newPeriod, 0)
+			pSince, pUntil, ok := periodEnds(retResult(ret, 0), newPeriod)
 			if !ok {
 				continue
 			}
@@ -615,8 +634,8 @@ func ruleP15Bounds(p *Prog, r *Report) {
 					q, _ = constInt(bo.Y)
 				}
 			}
-			s, ok1 := desc(c.Common().Args[0])
-			u, ok2 := desc(c.Common().Args[1])
+			s, ok1 := desc(pSince)
+			u, ok2 := desc(pUntil)
 			good := ok1 && ok2 && s.ownYear && u.ownYear && q >= 1 && q <= 4 && s.m == 3*q-2 && s.d == 1 && u.m == 3*q && u.d == last[q]
 			seen[q] = true
 			r.check(good, rule, fmt.Sprintf("Quarter.Period:q%d", q), p.instrPos(ret), fmt.Sprintf("Q%d = %02d-01 .. %02d-%02d of the date's year", q, 3*q-2, 3*q, last[q]), fmt.Sprintf("Q%d does not span %02d-01 .. %02d-%02d of the date's own year", q, 3*q-2, 3*q, last[q]))
@@ -628,11 +647,11 @@ func ruleP15Bounds(p *Prog, r *Report) {
 	yf := p.method("klog/service/period", "Year", "Period")
 	if r.anchorFn(rule, yf, "Year.Period") {
 		for _, ret := range returnsOf(yf) {
-			c, ok := isCallTo(retResult(ret, 0), newPeriod, 0)
+			pSince, pUntil, ok := periodEnds(retResult(ret, 0), newPeriod)
 			good := false
 			if ok {
-				s, ok1 := desc(c.Common().Args[0])
-				u, ok2 := desc(c.Common().Args[1])
+				s, ok1 := desc(pSince)
+				u, ok2 := desc(pUntil)
 				good = ok1 && ok2 && s.ownYear && u.ownYear && s.m == 1 && s.d == 1 && u.m == 12 && u.d == 31
 			}
 			r.check(good, rule, "Year.Period", p.instrPos(ret), "year = 01-01 .. 12-31 of the date's year", "the year period is not 01-01 .. 12-31 of the date's own year")
@@ -641,13 +660,13 @@ func ruleP15Bounds(p *Prog, r *Report) {
 	mf := p.method("klog/service/period", "Month", "Period")
 	if r.anchorFn(rule, mf, "Month.Period") {
 		for _, ret := range returnsOf(mf) {
-			c, ok := isCallTo(retResult(ret, 0), newPeriod, 0)
+			pSince, pUntil, ok := periodEnds(retResult(ret, 0), newPeriod)
 			good := false
 			if ok {
-				s, ok1 := desc(c.Common().Args[0])
+				s, ok1 := desc(pSince)
 				good = ok1 && s.ownYear && s.mAcc && s.d == 1
 				// until: a phi over a date starting inside the month (day <= 28) and stepped by +1 while the month stays
-				phis, ins := phiCycle(c.Common().Args[1])
+				phis, ins := phiCycle(pUntil)
 				okU := len(phis) > 0
 				for _, in := range ins {
 					if u, isD := desc(in); isD {
@@ -712,4 +731,67 @@ func ruleP15Bounds(p *Prog, r *Report) {
 		})
 		r.check(ok && ok2, rule, "NewPeriod", p.pos(newPeriod.Pos()), "NewPeriod(since, until) stores both bounds in place", "NewPeriod swaps or drops a bound")
 	}
+}
+
+// weekdayStep: step == K − Weekday() of the very date that is stepped from (recv); returns K.
+func weekdayStep(step ssa.Value, recv ssa.Value) (int64, bool) {
+	pl := polyOf(step)
+	if len(pl.Terms) != 1 {
+		return 0, false
+	}
+	same := func(a, b ssa.Value) bool {
+		if a == nil || b == nil {
+			return false
+		}
+		if sameValue(a, b) || strip(a) == strip(b) {
+			return true
+		}
+		// two reads of one field of the (unmodified) receiver
+		ba, fa := fieldLoad(a)
+		bb, fb := fieldLoad(b)
+		return fa != "" && fa == fb && ba != nil && bb != nil && (ba == bb || sameValue(ba, bb))
+	}
+	for k, c := range pl.Terms {
+		if c != -1 {
+			return 0, false
+		}
+		n, wr, _, _ := methodCall(pl.leafV[k])
+		if n != "Weekday" || !same(wr, recv) {
+			return 0, false
+		}
+	}
+	return pl.C, true
+}
+
+// periodEnds: v is NewPeriod(since, until), or the period built on the spot
+// (&periodData{since: …, until: …}); returns the two ends.
+func periodEnds(v ssa.Value, newPeriod *ssa.Function) (since, until ssa.Value, ok bool) {
+	if c, isCall := isCallTo(v, newPeriod, 0); isCall && len(c.Common().Args) == 2 {
+		return c.Common().Args[0], c.Common().Args[1], true
+	}
+	x := strip(v)
+	if mi, isMI := x.(*ssa.MakeInterface); isMI {
+		x = strip(mi.X)
+	}
+	a, isA := x.(*ssa.Alloc)
+	if !isA || typeNameOf(derefType(a.Type())) != "periodData" {
+		return nil, nil, false
+	}
+	for _, ref := range *a.Referrers() {
+		fa, isFA := ref.(*ssa.FieldAddr)
+		if !isFA {
+			continue
+		}
+		for _, r2 := range *fa.Referrers() {
+			if st, isSt := r2.(*ssa.Store); isSt && st.Addr == ssa.Value(fa) {
+				switch fieldName(fa) {
+				case "since":
+					since = st.Val
+				case "until":
+					until = st.Val
+				}
+			}
+		}
+	}
+	return since, until, since != nil && until != nil
 }
